@@ -197,8 +197,16 @@ class Puppet(object):
         else:
             msg, via = fabricate(it[1], self.conn.version), "send"
         self.sent.append(token(msg))
+        # a HelloRequest is never part of the handshake hashes (RFC 5246 7.4.1.1): an endpoint that skips a
+        # fabricated one must still see a Finished that verifies, or its lenience would go unnoticed
+        unhashed = it[0] == "fab" and it[1] == "HREQ"
         if queued and msg.contentType == ContentType.handshake:
-            self.orig_queue(msg)
+            if unhashed:
+                if self.conn._buffer_content_type is None:
+                    self.conn._buffer_content_type = msg.contentType
+                self.conn._buffer += msg.write()
+            else:
+                self.orig_queue(msg)
             return
         if self.conn._buffer_content_type is not None:
             # flush what is queued first, then send this one on its own
@@ -207,6 +215,10 @@ class Puppet(object):
             self.sent_rec[-1] = self._nrec()
         if msg.contentType == ContentType.handshake and via == "queue" and queued:
             self.orig_queue(msg)
+            return
+        if unhashed:
+            for r in self.orig_send(msg, True, False):
+                yield r
             return
         for r in self.orig_send(msg):
             yield r
